@@ -456,7 +456,8 @@ class Fetcher:
 
         for x in self._pending_tasks:
             x.cancel()
-            await x
+            with contextlib.suppress(asyncio.CancelledError):
+                await x
 
     def _notify(self, future):
         if future is not None and not future.done():
